@@ -223,3 +223,30 @@ def no_uncalled_predicates(ctx, rep, R, rel, what):
     rep.ob(R, rel, "every predicate method is called where its answer is used (%s)" % what, not hits,
            "%s — the method object itself is always true: the test it was meant to make never fails (an unset parameter counts as regular, a symbolic "
            "value as constant, ...)" % "; ".join("line %d: %s" % h for h in hits[:4]))
+
+
+# -- a loop variable read after its loop ---------------------------------------------------------------------------------------
+def no_stale_loop_variables(ctx, rep, R, rel, what, min_functions=3):
+    from ..pyutil import stale_loop_variable_uses
+    from ..engine import AnalysisError
+    probe = ast.parse("def f(t):\n    items = []\n    for k in ['a', 'b']:\n        items.append(k)\n    if t:\n        items.append(k)\n    for k in t:\n        pass\n    return [k for k in items]\n").body[0]
+    if [v for v, _l in stale_loop_variable_uses(probe)] != ["k"]:
+        raise AnalysisError(R, "self-test of the stale-loop-variable detector failed")
+    mod = ctx.module(rel, R)
+    hits, n = [], 0
+    for fn in ast.walk(mod):
+        if isinstance(fn, (ast.FunctionDef, ast.AsyncFunctionDef)):
+            if any(isinstance(x, (ast.Yield, ast.YieldFrom, ast.Await)) for x in ast.walk(fn)):
+                continue
+            n += 1
+            try:
+                for v, ln in stale_loop_variable_uses(fn):
+                    hits.append("%s (line %d): `%s`" % (fn.name, ln, v))
+            except AnalysisError:
+                continue
+    if n < min_functions:
+        from ..engine import MechanismMissing
+        raise MechanismMissing(R, "only %d functions scanned in %s" % (n, rel))
+    rep.ob(R, rel, "no loop variable is read after its loop has ended (%s)" % what, not hits,
+           "%s — the name still holds whatever the loop's last iteration left in it (or is unbound when the loop did not run): an item is emitted under the "
+           "last attribute's name, an element is taken at the last index, ..." % "; ".join(sorted(set(hits))[:4]))
